@@ -8,6 +8,8 @@ part by part along the dotted name, each intermediate part having to be a regula
 Also: modpath_to_modname round trip, split_modpath, import_module_from_path (+ M-D sys.path check).
 """
 import os
+import contextlib
+import io
 import sys
 import random
 import shutil
@@ -44,7 +46,7 @@ def required_cells(tier):
             'search-path-spelling:dot', 'search-path-shape:empty-list:nothing', 'search-path-shape:empty-tuple:nothing',
             'search-path-shape:nothing-there:nothing', 'search-path-shape:second-entry:found',
             'search-path-shape:first-entry:found', 'search-path-shape:tuple:found',
-            'import:requested-file-wins-a-name-conflict']
+            'import:requested-file-wins-a-name-conflict', 'import:zip-archive:ok', 'import:zip-archive:raises']
 
 
 def build(rng, root, uniq):
@@ -357,6 +359,40 @@ def check_tree(ctx, idx, seed):
                     ctx.violation('import-syspath', 'import_module_from_path(%r, index=0) changed sys.path' % (got,), case)
                     continue
                 ctx.cell('import:requested-file-wins-a-name-conflict')
+        # ---- modules inside a zip archive (the documented 'archive.zip/inner.py' form): the module of that name, and
+        # the whole process state (sys.path, warning filters, streams, cwd) as it was, also when the import fails
+        if idx % 3 == 1:
+            import zipfile
+            zpath = root + '_arch.zip'
+            zname = 'zmod_%s' % uniq
+            with zipfile.ZipFile(zpath, 'w') as zf:
+                zf.writestr(zname + '.py', 'VALUE = %d\n' % idx)
+                zf.writestr('zbad_%s.py' % uniq, 'raise ValueError("XV_IMPORT_FAILS")\n')
+            for inner, expect in ((zname, 'ok'), ('zbad_%s' % uniq, 'raises'), ('zmissing_%s' % uniq, 'raises')):
+                ctx.evaluation()
+                case = {'index': idx, 'case_seed': seed, 'name': inner, 'zip': True}
+                before = monitors.ProcState()
+                with contextlib.redirect_stdout(io.StringIO()):
+                    try:
+                        mod, err = util_import.import_module_from_path(zpath + '/' + inner + '.py'), None
+                    except Exception as ex:
+                        mod, err = None, ex
+                d = before.diff(monitors.ProcState())
+                ctx.event('imports_monitored')
+                if d:
+                    ctx.violation('import-procstate', 'import_module_from_path(<zip>/%s.py) (%s) left the process changed: %r' % (
+                        inner, expect, d), case)
+                    warnings.filters[:] = before.filters
+                    sys.path[:] = before.path
+                    continue
+                if expect == 'ok' and (err is not None or getattr(mod, 'VALUE', None) != idx or mod.__name__ != inner):
+                    ctx.violation('import', 'import_module_from_path(<zip>/%s.py) -> %r / %r' % (inner, mod, err), case)
+                    continue
+                if expect == 'raises' and err is None:
+                    ctx.violation('import', 'import_module_from_path(<zip>/%s.py) returned %r' % (inner, mod), case)
+                    continue
+                ctx.cell('import:zip-archive:' + expect)
+            os.unlink(zpath)
         # ---- history: the tree changes between two resolutions in the same process (files appear and disappear);
         # every answer must describe the tree as it is at that moment
         if idx % 2 == 0:
